@@ -22,6 +22,7 @@ ASSUMPTIONS = [
     'scroll_up/scroll_down leave the vacated row unchanged; lf scrolls only at the bottom row of the screen; '
     'cursor_up_reverse at the top row calls scroll_up; a region with start >= end scrolls nothing',
     'characters {a,b} as str and bytes (latin-1 screen)']
+STATES_MEANING = 'distinct (screen, reference) states (grid, cursor, saved cursor, scroll region), deduplicated, summed over screen sizes'
 REQUIRED_FLAGS = {'out_of_range_arg': 1, 'swapped_corners': 1, 'bytes_char': 1, 'scroll_in_region': 1,
                   'degenerate_region': 1, 'changed_state': 1}
 
